@@ -21,5 +21,6 @@ MCDocs == << Arr(<<I(3), I(1), I(2)>>), Arr(<<I(5), I(4), I(3), I(2), I(1), I(0)
              Obj({<<cA, Arr(<<Obj({<<cA, I(2)>>}), Obj({<<cA, I(1)>>})>>)>>}), Null >>
 (* a.b | [0 | (unclosed quote) | a[1] | a.b.c | * | a( | `1` *)
 MCTexts == << <<97, 46, 98>>, <<91, 48>>, <<34, 97>>, <<97, 91, 49, 93>>, <<97, 46, 98, 46, 99>>, <<42>>, <<97, 40>>, <<96, 49, 96>>, <<97, 124, 124>>,
-             <<39, 105, 116, 92, 39, 115>>, <<39, 120, 39>>, <<97, 91, 63, 98, 61, 61, 39, 120, 39, 93>> >>   \* 'it\'s (unclosed) | 'x' | a[?b=='x']
+             <<39, 105, 116, 92, 39, 115>>, <<39, 120, 39>>, <<97, 91, 63, 98, 61, 61, 39, 120, 39, 93>>,   \* 'it\'s (unclosed) | 'x' | a[?b=='x']
+             <<97, 32, 98>>, <<97, 93>> >>      \* a b | a]  (a complete expression followed by a token: rejected only by the final end-of-input check)
 =============================================================================
